@@ -17,7 +17,7 @@ from pyee.asyncio import AsyncIOEventEmitter
 from .exceptions import InvalidStateError
 from .rtcdatachannel import RTCDataChannel, RTCDataChannelParameters
 from .rtcdtlstransport import RTCDtlsTransport
-from .utils import random32, uint16_add, uint16_gt, uint32_gt, uint32_gte
+from .utils import random32, uint16_add, uint16_gt, uint16_gte, uint32_gt, uint32_gte
 
 logger = logging.getLogger(__name__)
 
@@ -1169,16 +1169,22 @@ class RTCSctpTransport(AsyncIOEventEmitter):
         for stream_id, stream_seq in chunk.streams:
             inbound_stream = self._get_inbound_stream(stream_id)
 
-            # advance sequence number and perform delivery
-            inbound_stream.sequence_number = uint16_add(stream_seq, 1)
+            # advance sequence number (never move it back) and perform delivery
+            if uint16_gte(stream_seq, inbound_stream.sequence_number):
+                inbound_stream.sequence_number = uint16_add(stream_seq, 1)
             for message in inbound_stream.pop_messages():
                 self._advertised_rwnd += len(message[2])
                 await self._receive(*message)
 
         # prune obsolete chunks, i.e. those the peer gave up on, which does not
         # include chunks received out of order beyond the forwarded TSN
-        for stream_id, inbound_stream in self._inbound_streams.items():
+        for stream_id, inbound_stream in list(self._inbound_streams.items()):
             self._advertised_rwnd += inbound_stream.prune_chunks(chunk.cumulative_tsn)
+
+            # deliver what was held back by the pruned chunks
+            for message in inbound_stream.pop_messages():
+                self._advertised_rwnd += len(message[2])
+                await self._receive(*message)
 
     async def _receive_sack_chunk(self, chunk: SackChunk) -> None:
         """
